@@ -14,8 +14,12 @@ import (
 // binding powers, not by the generator); the real tree and the model's tree for the same token
 // kinds must be the same.
 
-const prattPrelude = "n1 := 2\nn2 := 3\nb1 := true\ns1 := \"abc\"\narr := [1 2 3]\narr2 := [[1 2] [3]]\n"
-const prattUses = "print n1 n2 b1 s1 arr arr2 x\n"
+const prattPrelude = "n1 := 2\nn2 := 3\nb1 := true\ns1 := \"abc\"\narr := [1 2 3]\narr2 := [[1 2] [3]]\nmp := {k:1 j:2}\nya:any\nya = 5\nyb:any\nyb = \"s\"\n"
+const prattUses = "print n1 n2 b1 s1 arr arr2 mp ya yb x\n"
+
+// prattPostfix adds slices, field access and type assertions to the generated expressions (the Lean Pratt
+// model does not cover them; the formatter streams do)
+var prattPostfix = false
 
 func prattAtom(rng *rand.Rand, ty string) string {
 	switch ty {
@@ -47,6 +51,16 @@ func prattGen(rng *rand.Rand, ty string, d int) string {
 			return op
 		}
 		return " " + op + " "
+	}
+	if prattPostfix && rng.Intn(5) == 0 {
+		switch ty {
+		case "num":
+			return []string{"mp.k", "mp[\"j\"]", "ya.(num)", "arr[1:][0]", "arr[:2][" + prattGen(rng, "num", d-1) + "]", "arr2[0][n1:][0]", "(arr + arr)[" + prattGen(rng, "num", d-1) + ":][0]"}[rng.Intn(7)]
+		case "str":
+			return []string{"s1[1:]", "s1[:" + prattGen(rng, "num", d-1) + "]", "yb.(string)", "s1[n1:n2]", "(s1 + s1)[1:][0]"}[rng.Intn(5)]
+		case "arrx":
+			return []string{"arr[1:]", "arr[:]", "arr2[0][:1]", "(arr[:2])"}[rng.Intn(4)]
+		}
 	}
 	switch ty {
 	case "num":
